@@ -44,6 +44,9 @@ var (
 	tsteps   [MaxTasks]uint64 // running task: steps executed by task
 	tbudget  uint64           // per-task step budget while scheduler active
 
+	foreign     bool   // the code under test started a goroutine of its own during this run
+	foreignRuns uint64 // scheduled runs in which that happened
+
 	siteHits []uint32 // optional per-site hit counters (coverage), len 0 = off
 
 	knobs = map[string]int{}
@@ -108,7 +111,7 @@ func Yield(site uint32) {
 	if int(site) < len(siteHits) {
 		siteHits[site]++
 	}
-	if !active {
+	if !active || foreign {
 		return
 	}
 	t := cur
@@ -134,6 +137,27 @@ func Yield(site uint32) {
 	}
 	park(t)
 }
+
+// Foreign is called (by instrumented code) immediately before the code under
+// test starts a goroutine of its own.  A yield executed by such a goroutine
+// cannot be told apart from one executed by the running task, so from here to
+// the end of the scheduled run nobody is parked any more: the running task and
+// its helpers run freely to completion, then the remaining tasks run one after
+// the other.  Results and race reports stay meaningful, only the interleaving
+// is no longer enumerated for that scenario.
+//
+//go:norace
+func Foreign(int32) {
+	if active && !foreign {
+		foreign = true
+		foreignRuns++
+	}
+}
+
+// ForeignRuns is the number of scheduled runs that hit Foreign.
+//
+//go:norace
+func ForeignRuns() uint64 { return foreignRuns }
 
 // NoYield brackets a region in which the running task must not be parked
 // (it holds a lock).
@@ -219,6 +243,7 @@ func reset(n int, taskBudget uint64) {
 	}
 	tbudget = taskBudget
 	cur = 0
+	foreign = false
 	active = true
 }
 
